@@ -16,6 +16,7 @@ fn inst(kind: Kind, dim: DimMode, field: Field, ops_tail: Vec<BOp>, plan: FaultP
         kind,
         dim,
         field,
+        data: if dim.dynamic { DataMode::Counter } else { DataMode::Unit },
         ops,
         problem: Problem::Linear,
         y0: 1.0,
